@@ -7,7 +7,8 @@ from . import c01
 ID = 'C11'
 LEVEL = 'exploration'
 RULE = ('case = (container tree over list/tuple/set/frozenset/dict whose leaves are pairwise distinct ints, strs, bytes '
-        'and floats, depth d in {0..height+2, None}, width in {20, 200}). Exhaustive: all shapes with <= 4 (quick) / 5 '
+        'and floats, optionally with comment() on list elements / dict values / the root (comments are inert for depth), '
+        'depth d in {0..height+2, None}, width in {20, 200}). Exhaustive: all shapes with <= 4 (quick) / 5 '
         '(thorough) nodes x every d; random: Hypothesis shapes up to 25 leaves. Oracle: the ASTs of the depth-d output '
         'and of the unlimited output are walked in parallel, driven by the value: an element inside k containers is '
         'the placeholder of its own type ([...], (...), {...}, T(...)) iff k >= d, otherwise node type and arity agree '
@@ -82,7 +83,24 @@ def strategy(tier):
             st.lists(hashable, max_size=3).map(lambda xs: ['fset', xs]),
             st.lists(st.tuples(hashable, ch).map(list), max_size=3).map(lambda kv: ['dict', kv]),
         )
-    tree = st.recursive(leaf, ext, max_leaves=25).map(relabel)
+    def decorate(p):
+        # comments on values (not on dict keys / set elements): list elements, dict values, the root
+        tree, picks = p
+        state = {'n': 0}
+
+        def rec(r, allowed):
+            t = r[0]
+            if t in ('list', 'tuple'):
+                r = [t, [rec(x, True) for x in r[1]]]
+            elif t == 'dict':
+                r = [t, [[k, rec(v, True)] for k, v in r[1]]]
+            state['n'] += 1
+            if allowed and picks and state['n'] % 7 in picks:
+                return ['cmt', 'a comment that is long enough to be put above its value %d' % state['n'], r]
+            return r
+        return rec(tree, True)
+    plain = st.recursive(leaf, ext, max_leaves=25).map(relabel)
+    tree = st.one_of(plain, plain, st.tuples(plain, st.sets(st.integers(0, 6), min_size=1, max_size=3).map(sorted)).map(decorate))
     return st.fixed_dictionaries({
         'v': tree,
         'd': st.one_of(st.none(), st.integers(0, 3), st.integers(0, 8)),
@@ -95,6 +113,8 @@ class Bad(Exception):
 
 
 def walk(v, full, cut, k, d, ctxkey=False):
+    from prettyprinter.prettyprinter import unwrap_comments
+    v = unwrap_comments(v)[0]       # comments are inert: they neither add nor remove a nesting level
     typ = type(v)
     must_ph = k >= d
     ph = is_ph(cut, typ)
@@ -149,6 +169,13 @@ def walk(v, full, cut, k, d, ctxkey=False):
     else:
         if not same:
             raise Bad('leaf %r differs: %s' % (v, ast.dump(cut)[:100]))
+
+
+def fixed_cases():
+    deep = ['dict', [[['str', 's1'], ['cmt', 'a comment long enough to go above the value', ['list', [['int', 1], ['list', [['int', 2], ['list', [['int', 3]]]]]]]]]]]
+    for d in (0, 1, 2, 3, 4, 5, None):
+        for w in (20, 200):
+            yield {'v': deep, 'd': d, 'width': w}
 
 
 def oracle(case):
